@@ -397,6 +397,7 @@ func checkC04(w *World, r *Report) {
 	ruleTriggerCancels(w, r, "C04")
 	ruleFinalRender(w, r, "C04")
 	ruleCursorUp(w, r, "C04")
+	ruleFlushReturnsErrors(w, r, "C04")
 	ruleRowsFit(w, r, "C04")
 	fi := w.analyseFlush()
 	ruleFlushCount(w, r, "C04", fi)
@@ -466,4 +467,64 @@ func ruleRenderSize(w *World, r *Report, pfx string) {
 	})
 	r.Check(bad == "" && n > 0, rule, "render sizes", w.pos(render.Pos()), "terminal size for terminals, requested/default width otherwise", bad)
 	_ = strings.TrimSpace
+}
+
+
+// ruleFlushReturnsErrors (W-ERRRET): the writer's Flush drops no error. For every call in it
+// that yields an error e, every path from that call to a return either has tested e == nil or
+// returns e itself (an untested or non-nil write error answered with nil would let a failed
+// frame pass as written: the container never learns about the render error).
+func ruleFlushReturnsErrors(w *World, r *Report, pfx string) {
+	rule := pfx + ".W-ERRRET"
+	fn := w.Func("cwriter.(*Writer).Flush")
+	if fn == nil {
+		r.Unresolved("anchor", "cwriter.(*Writer).Flush", "not found")
+		return
+	}
+	errT := types.Universe.Lookup("error").Type()
+	bad := ""
+	nErr := 0
+	nP, over := w.enumPaths(fn, pathOpts{}, func(p *Path) {
+		if p.Exit != "return" || len(p.Ret) != 1 || bad != "" {
+			return
+		}
+		ret := p.R(p.Ret[0])
+		for _, ev := range p.Events {
+			c, ok := ev.In.(*ssa.Call)
+			if !ok {
+				continue
+			}
+			// the error value(s) of this call
+			var errs []ssa.Value
+			if types.Identical(c.Type(), errT) {
+				errs = append(errs, c)
+			} else if tup, ok := c.Type().(*types.Tuple); ok && c.Referrers() != nil {
+				for _, ref := range *c.Referrers() {
+					if ex, ok := ref.(*ssa.Extract); ok && types.Identical(tup.At(ex.Index).Type(), errT) {
+						errs = append(errs, ex)
+					}
+				}
+				if len(errs) == 0 && tup.Len() > 0 && types.Identical(tup.At(tup.Len()-1).Type(), errT) {
+					bad = "the error result of " + c.Call.String() + " (" + w.instrPos(c) + ") is discarded"
+					return
+				}
+			}
+			for _, e := range errs {
+				nErr++
+				isE := func(v Val) bool { return v.V == e }
+				if ret.V == e {
+					continue
+				}
+				if p.hasCmp(-1, token.EQL, isE, isNilVal) {
+					continue
+				}
+				bad = "a path returns without the error of " + c.Call.String() + " (" + w.instrPos(c) + ") although it was not found nil on that path: a failed write is reported as success"
+			}
+		}
+	})
+	if over {
+		r.Undecided(rule, "cwriter.(*Writer).Flush", w.pos(fn.Pos()), "path cap")
+		return
+	}
+	r.Check(bad == "" && nP > 0 && nErr > 0, rule, "cwriter.(*Writer).Flush", w.pos(fn.Pos()), "every error arising in Flush is returned unless tested nil", orStr(bad, "no error-producing call found in Flush"))
 }
